@@ -18,7 +18,8 @@ def who(request, encoding='utf-8'):
     ip = request.remote.ip
     agent = request.headers.get('User-Agent', '')
 
-    return sha(f'{ip}{agent}'.encode(encoding)).hexdigest()
+    # (the separator keeps '10.0.0.1' + '1x' apart from '10.0.0.11' + 'x')
+    return sha(f'{ip}\n{agent}'.encode(encoding)).hexdigest()
 
 
 def create_session(request):
